@@ -97,6 +97,21 @@ class PropertyRun:
                 if len(self.samples) < 6 and ob['kind'] == 'post':
                     self.samples.append({'function': rep['function'], 'obligation': ob['name'], 'path': ob['path'],
                                          'verdict': 'unsat', 'backend': ob['backend'], 'secs': ob['secs']})
+            elif ob['verdict'] in ('sat-weakened', 'unknown') and contract is not None and \
+                    getattr(contract, 'native_witness', None) and any(k in ob['name'] for k in contract.native_witness):
+                # the obligation has a fixed native witness program (recorded when the finding was first derived):
+                # run it against this tree; it decides
+                from .replay import run_witness
+                key = next(k for k in contract.native_witness if k in ob['name'])
+                res = run_witness(contract.native_witness[key])
+                if res.get('violates'):
+                    self.failures.append({'obligation': ob['name'], 'function': rep['function'], 'path': ob['path'],
+                                          'inputs': {'native_witness': key}, 'replay': {'reproduced': True, 'observed': res},
+                                          'solver': {'backend': ob['backend'], 'verdict': ob['verdict'] + '; fixed native witness reproduces',
+                                                     'output': ob.get('reason', '')}})
+                else:
+                    self.undecided.append({'obligation': ob['name'], 'function': rep['function'],
+                                           'reason': 'undecided; the recorded native witness does not reproduce: ' + str(res)[:200]})
             elif ob['verdict'] == 'sat-weakened':
                 # undecided obligation with a candidate counter-model from a weakened query: a violation only if the
                 # native replay reproduces it
